@@ -25,6 +25,9 @@ LEVEL = 'other'
 
 BASES = {
     'midpoint2': (1, [Fraction(1, 4), Fraction(3, 4)], [Fraction(1, 2), Fraction(1, 2)]),
+    # nodes deliberately NOT in increasing order (a rule is a set of (node, weight) pairs; three shipped log tables
+    # are stored out of order) and not symmetric about 1/2
+    'radau2-unordered': (2, [Fraction(2, 3), Fraction(0)], [Fraction(3, 4), Fraction(1, 4)]),
     'simpson': (3, [Fraction(0), Fraction(1, 2), Fraction(1)], [Fraction(1, 6), Fraction(4, 6), Fraction(1, 6)]),
     'boole': (5, [Fraction(k, 4) for k in range(5)],
               [Fraction(7, 90), Fraction(32, 90), Fraction(12, 90), Fraction(32, 90), Fraction(7, 90)]),
@@ -380,7 +383,7 @@ def tab_concrete(rp):
 
 def run(out):
     quick = out.tier == 'quick'
-    bases = ['midpoint2', 'simpson'] if quick else ['midpoint2', 'simpson', 'boole']
+    bases = ['midpoint2', 'radau2-unordered', 'simpson'] if quick else ['midpoint2', 'radau2-unordered', 'simpson', 'boole']
     for c, r in zip(bases, report.pmap('checks.c15', 'scheme_worker', bases)):
         report.merge_worker(out, r, part='S symbolic boxes, base %s' % c)
     Q = load()
